@@ -6,6 +6,8 @@ package main
 
 import (
 	"fmt"
+	"go/constant"
+	"go/types"
 	"strings"
 
 	"golang.org/x/tools/go/ssa"
@@ -78,8 +80,8 @@ var models = map[string]Model{
 	"(*encoding/json.Decoder).More":  {Pure: true, Why: "encoding/json"},
 
 	// --- reflect (pure with respect to everything but dest, which is written only through Addr().Interface() handed to a decoder) ---
-	"reflect.TypeOf":               {Pure: true, Why: "reflect docs"},
-	"reflect.ValueOf":              {Pure: true, Why: "reflect docs"},
+	"reflect.TypeOf": {Pure: true, Custom: modelTypeOf, Why: "reflect docs: non-nil for a non-nil interface value"},
+	"reflect.ValueOf":              {Pure: true, Custom: modelValueOf, Why: "reflect docs"},
 	"(reflect.StructTag).Lookup":   {Pure: true, Why: "reflect docs"},
 	"(reflect.StructTag).Get":      {Pure: true, Why: "reflect docs"},
 	"(reflect.Value).Addr":         {Pure: true, Why: "reflect docs"},
@@ -87,9 +89,9 @@ var models = map[string]Model{
 	"(reflect.Value).Field":        {Pure: true, Why: "reflect docs"},
 	"(reflect.Value).Interface":    {Pure: true, Why: "reflect docs"},
 	"(reflect.Value).IsZero":       {Pure: true, Why: "reflect docs"},
-	"(reflect.Value).IsNil":        {Pure: true, Why: "reflect docs"},
+	"(reflect.Value).IsNil":        {Pure: true, Custom: modelIsNil, Why: "reflect docs: reports whether the pointer/interface the Value holds is nil"},
 	"(reflect.Value).IsValid":      {Pure: true, Why: "reflect docs"},
-	"(reflect.Value).Kind":         {Pure: true, Why: "reflect docs"},
+	"(reflect.Value).Kind": {Pure: true, Custom: modelValueKind, Why: "reflect docs: the kind of the dynamic type held"},
 	"(reflect.Value).NumField":     {Pure: true, Why: "reflect docs"},
 	"(reflect.Value).Type":         {Pure: true, NonNil: []bool{true}, Why: "reflect docs"},
 	"invoke reflect.Type.Elem":     {Pure: true, NonNil: []bool{true}, Why: "reflect docs"},
@@ -378,4 +380,82 @@ func modelProfileGet(e *Engine, st *State, x *ssa.Call, args []AV) AV {
 		names = append(names, a.name())
 	}
 	return e.resultAV(st, x, "(eat.Profile).Get("+strings.Join(names, ",")+")", nil)
+}
+
+// modelValueOf keeps the wrapped value so that IsNil can be related to it.
+func modelValueOf(e *Engine, st *State, x *ssa.Call, args []AV) AV {
+	if len(args) != 1 {
+		return e.resultAV(st, x, "reflect.ValueOf(?)", nil)
+	}
+	v := args[0]
+	return AV{Kind: KSym, Sym: "reflect.ValueOf(" + v.name() + ")", Inner: &v, Src: x}
+}
+
+// modelIsNil: reflect.ValueOf(i).IsNil() for an interface i holding pointer p
+// is the atom nil(p).
+func modelIsNil(e *Engine, st *State, x *ssa.Call, args []AV) AV {
+	if len(args) == 1 && args[0].Inner != nil {
+		in := *args[0].Inner
+		if in.Kind == KIface && in.Inner != nil {
+			in = *in.Inner
+		}
+		switch st.NilOf(in) {
+		case 1:
+			return avBool(false)
+		case -1:
+			return avBool(true)
+		}
+		if in.Kind == KSym || in.Kind == KUnknown {
+			return AV{Kind: KAtom, Sym: "nil(" + in.name() + ")"}
+		}
+	}
+	var names []string
+	for _, a := range args {
+		names = append(names, a.name())
+	}
+	return AV{Kind: KAtom, Sym: "(reflect.Value).IsNil(" + strings.Join(names, ",") + ")"}
+}
+
+func modelTypeOf(e *Engine, st *State, x *ssa.Call, args []AV) AV {
+	name := "?"
+	if len(args) == 1 {
+		name = args[0].name()
+	}
+	a := AV{Kind: KSym, Sym: "reflect.TypeOf(" + name + ")", Src: x}
+	if len(args) == 1 && st.NilOf(args[0]) == 1 {
+		a.NonNil = true
+	}
+	return a
+}
+
+// modelValueKind: for reflect.ValueOf(i) where the dynamic type of i is known
+// statically, Kind() is that type's kind.
+func modelValueKind(e *Engine, st *State, x *ssa.Call, args []AV) AV {
+	if len(args) == 1 && args[0].Inner != nil && args[0].Inner.Kind == KIface && args[0].Inner.Dyn != nil {
+		name := ""
+		switch args[0].Inner.Dyn.Underlying().(type) {
+		case *types.Pointer:
+			name = "Pointer"
+		case *types.Struct:
+			name = "Struct"
+		case *types.Slice:
+			name = "Slice"
+		case *types.Map:
+			name = "Map"
+		}
+		if name != "" {
+			if f := x.Call.StaticCallee(); f != nil && f.Pkg != nil {
+				if c, ok := f.Pkg.Pkg.Scope().Lookup(name).(*types.Const); ok {
+					if k, ok := constant.Int64Val(c.Val()); ok {
+						return avInt(k)
+					}
+				}
+			}
+		}
+	}
+	var names []string
+	for _, a := range args {
+		names = append(names, a.name())
+	}
+	return e.resultAV(st, x, "(reflect.Value).Kind("+strings.Join(names, ",")+")", nil)
 }
